@@ -198,6 +198,9 @@ namespace cds { namespace intrusive {
             {
                 if ( m_pNode ) {
                     node_type * p = node_traits::to_node_ptr( *m_pNode )->m_pNext.load(memory_model::memory_order_relaxed).ptr();
+                    // skip logically deleted nodes (marked but not unlinked yet)
+                    while ( p && p->m_pNext.load( memory_model::memory_order_relaxed ).bits())
+                        p = p->m_pNext.load( memory_model::memory_order_relaxed ).ptr();
                     m_pNode = p ? node_traits::to_value_ptr( p ) : nullptr;
                 }
             }
@@ -213,6 +216,9 @@ namespace cds { namespace intrusive {
             explicit iterator_type( atomic_node_ptr const& refNode)
             {
                 node_type * pNode = refNode.load(memory_model::memory_order_relaxed).ptr();
+                // skip logically deleted nodes (marked but not unlinked yet)
+                while ( pNode && pNode->m_pNext.load( memory_model::memory_order_relaxed ).bits())
+                    pNode = pNode->m_pNext.load( memory_model::memory_order_relaxed ).ptr();
                 m_pNode = pNode ? node_traits::to_value_ptr( *pNode ) : nullptr;
             }
 
